@@ -746,3 +746,127 @@ Proof.
   pose proof (brk_list_all body false PScope None (empty_frame InModule mname mname) sentinel []) as B.
   unfold level_path in B. simpl in B. unfold brk in B. rewrite B. simpl. rewrite String.eqb_refl. reflexivity.
 Qed.
+
+(* ================= one member per bound name, in order of first binding ================= *)
+Definition keys {A} (l : list (string * A)) : list string := map fst l.
+Fixpoint extend (ks ns : list string) : list string :=
+  match ns with [] => ks | n :: r => extend (if str_mem n ks then ks else ks ++ [n]) r end.
+
+Lemma extend_app : forall a b ks, extend ks (a ++ b) = extend (extend ks a) b.
+Proof. induction a; simpl; auto. Qed.
+
+Lemma str_mem_keys : forall A n (l : list (string * A)), str_mem n (keys l) = has_key n l.
+Proof.
+  unfold str_mem, has_key, keys. induction l as [|[k v] r IH]; simpl; auto.
+  rewrite String.eqb_sym. destruct (String.eqb k n); auto.
+Qed.
+
+Lemma keys_assign : forall A n (v : A) l, keys (assign n v l) = if has_key n l then keys l else keys l ++ [n].
+Proof.
+  unfold has_key, keys. induction l as [|[k w] r IH]; simpl; auto.
+  destruct (String.eqb k n) eqn:E; simpl; auto.
+  rewrite IH. destruct (lookup n r); reflexivity.
+Qed.
+
+Lemma keys_assign_extend : forall A n (v : A) l, keys (assign n v l) = extend (keys l) [n].
+Proof. intros. simpl. rewrite keys_assign, str_mem_keys. reflexivity. Qed.
+
+Lemma extend_present : forall ks n, str_mem n ks = true -> extend ks [n] = ks.
+Proof. intros. simpl. rewrite H. reflexivity. Qed.
+
+Lemma str_mem_app : forall x a b, str_mem x (a ++ b) = str_mem x a || str_mem x b.
+Proof. intros. unfold str_mem. apply existsb_app. Qed.
+
+Lemma extend_first_names : forall bs seen ks,
+  (forall x, str_mem x seen = str_mem x ks) -> extend ks (map b_name bs) = ks ++ first_names seen bs.
+Proof.
+  induction bs as [|b r IH]; intros seen ks H; simpl.
+  - rewrite app_nil_r. reflexivity.
+  - rewrite <- H. destruct (str_mem (b_name b) seen) eqn:E.
+    + apply IH. exact H.
+    + rewrite (IH (b_name b :: seen) (ks ++ [b_name b])).
+      * rewrite <- app_assoc. reflexivity.
+      * intros x. rewrite str_mem_app. pose proof (H x) as Hx. unfold str_mem in *. simpl.
+        rewrite Hx, orb_false_r. apply orb_comm.
+Qed.
+
+Lemma keys_add_label : forall n l ms, keys (add_label n l ms) = keys ms.
+Proof.
+  intros. unfold add_label. destruct (lookup n ms) as [[i sub im ex]|] eqn:E; auto.
+  rewrite keys_assign. unfold has_key. rewrite E. reflexivity.
+Qed.
+
+Lemma base_property_member : forall ms n ds fn, base_property ms n ds = Some fn -> has_key n ms = true.
+Proof.
+  induction ds as [|d r IH]; simpl; intros; [discriminate|].
+  destruct d as [p|bs f0]; auto.
+  destruct ((String.eqb f0 "setter" || String.eqb f0 "deleter") && String.eqb bs n && member_is_property ms n) eqn:E; auto.
+  apply andb_prop in E. destruct E as [_ E]. unfold member_is_property in E. unfold has_key.
+  destruct (lookup n ms); [reflexivity|discriminate].
+Qed.
+
+(* names bound on the receiving frame by one definition *)
+Definition def_names (name : string) (a : bool) (ds : list deco) : list string :=
+  if def_is_property a ds then [name] else if def_is_overload ds then [] else [name].
+
+Lemma keys_op_def : forall g ln dln eln name a ds doc f,
+  keys (fmembers (fst (op_def g ln dln eln name a ds doc f))) = extend (keys (fmembers f)) (def_names name a ds).
+Proof.
+  intros. unfold op_def, def_names. destruct (def_is_property a ds); simpl fst.
+  - cbn [fmembers set_members]. apply keys_assign_extend.
+  - destruct (def_is_overload ds); simpl fst; [reflexivity|].
+    destruct (base_property (fmembers f) name ds) eqn:B; simpl fst; cbn [fmembers set_members].
+    + rewrite keys_add_label. symmetry. apply extend_present. rewrite str_mem_keys. eapply base_property_member; eauto.
+    + apply keys_assign_extend.
+Qed.
+
+Lemma keys_attr_loop : forall cond g ln eln items pf names labels doc f,
+  keys (fmembers (fst (attr_loop cond g ln eln items pf names labels doc f))) = extend (keys (fmembers f)) (plain_names names).
+Proof.
+  induction names as [|n r IH]; intros; [reflexivity|].
+  simpl attr_loop. unfold plain_names in *. simpl filter. destruct (has_dot n) eqn:D; simpl negb; cbv iota.
+  - apply IH.
+  - destruct (lookup n (fmembers f)) as [ex|] eqn:L.
+    + assert (P : str_mem n (keys (fmembers f)) = true) by (rewrite str_mem_keys; unfold has_key; rewrite L; reflexivity).
+      destruct cond.
+      * rewrite IH. simpl extend. rewrite P. reflexivity.
+      * match goal with |- context [attr_loop ?c ?g ?a ?b ?i ?p r ?l ?d ?f2] =>
+          specialize (IH l d f2); destruct (attr_loop c g a b i p r l d f2) as [f3 evs] end.
+        simpl fst in *. rewrite IH. simpl extend. rewrite P.
+        f_equal. destruct (String.eqb n "__all__" && items_ok items); cbn [fmembers set_members set_exports];
+          rewrite keys_assign; unfold has_key; rewrite L; reflexivity.
+    + assert (P : str_mem n (keys (fmembers f)) = false) by (rewrite str_mem_keys; unfold has_key; rewrite L; reflexivity).
+      match goal with |- context [attr_loop ?c ?g ?a ?b ?i ?p r ?l ?d ?f2] =>
+        specialize (IH l d f2); destruct (attr_loop c g a b i p r l d f2) as [f3 evs] end.
+      simpl fst in *. rewrite IH. simpl extend. rewrite P.
+      f_equal. destruct (String.eqb n "__all__" && items_ok items); cbn [fmembers set_members set_exports];
+        rewrite keys_assign; unfold has_key; rewrite L; reflexivity.
+Qed.
+
+Lemma keys_op_import : forall g ln eln names f,
+  keys (fmembers (fst (op_import g ln eln names f))) = extend (keys (fmembers f)) (map b_name (import_bindings g ln names)).
+Proof.
+  induction names as [|[an ap] r IH]; intros; [reflexivity|].
+  simpl op_import.
+  match goal with |- context [op_import g ln eln r ?f2] =>
+    specialize (IH f2); destruct (op_import g ln eln r f2) as [f3 evs] end.
+  simpl fst in *. rewrite IH. cbn [fmembers set_members set_imports]. rewrite keys_assign_extend. reflexivity.
+Qed.
+
+Lemma keys_op_importfrom : forall g ln eln names f,
+  keys (fmembers (fst (op_importfrom g ln eln names f))) =
+  extend (keys (fmembers f)) (map b_name (importfrom_bindings g ln (fpath f) names)).
+Proof.
+  induction names as [|x r IH]; intros; [reflexivity|].
+  simpl op_importfrom. simpl importfrom_bindings. destruct x as [an ap|an ap|]; [| |apply IH].
+  - destruct (String.eqb ap (dot (fpath f) an)).
+    + rewrite IH. reflexivity.
+    + match goal with |- context [op_importfrom g ln eln r ?f2] =>
+        specialize (IH f2); destruct (op_importfrom g ln eln r f2) as [f3 evs] end.
+      simpl fst in *. rewrite IH. cbn [fmembers set_members set_imports fpath]. rewrite keys_assign_extend. reflexivity.
+  - destruct (String.eqb ap (dot (fpath f) an)).
+    + apply IH.
+    + match goal with |- context [op_importfrom g ln eln r ?f2] =>
+        specialize (IH f2); destruct (op_importfrom g ln eln r f2) as [f3 evs] end.
+      simpl fst in *. rewrite IH. cbn [fmembers set_members fpath]. rewrite keys_assign_extend. reflexivity.
+Qed.
